@@ -20,11 +20,12 @@ Open Scope list_scope.
 (* ---- shorthand of data cards ---- *)
 
 (* expand_data_card returns exactly the numbers the entries stand for (nR, nI,
-   xM, nJ; any scalar type, any primitives) and consumes every token *)
+   xM, nJ, nLOG/nILOG; any scalar type, any primitives, x**y being the
+   primitive pw) and consumes every token *)
 Theorem C12_expand_shorthand :
   forall (T : Type) (Sc : Scalar T) (P : prims T) (toks : list string)
          (es : list (entry (T:=T))) (out : list (option T)),
-    reads P toks es -> meaning Sc es None = Some out ->
+    reads P toks es -> meaning Sc (pw P) es None = Some out ->
     expand Sc P toks None = Ok (out, List.length toks).
 Proof. exact @expand_shorthand. Qed.
 Print Assumptions C12_expand_shorthand.
@@ -39,6 +40,18 @@ Proof.
   split; [exact H0|]. split; [exact Hn|]. apply interp_step.
 Qed.
 Print Assumptions C12_interpolates_evenly_spaced.
+
+(* over the reals (x**y = Rpower) the values of nLOG start at a, end at b and
+   have the constant ratio (b/a)**(1/(n+1)) *)
+Theorem C12_log_interpolates_constant_ratio : forall (a b : R) (n k : nat),
+  (a <> 0 -> 0 < b / a ->
+   log_interp RS Rpower a b n 0 = a /\ log_interp RS Rpower a b n (S n) = b /\
+   log_interp RS Rpower a b n (S k) = log_interp RS Rpower a b n k * Rpower (b / a) (1 / (INR n + 1)))%R.
+Proof.
+  intros a b n k Ha Hr. destruct (log_interp_ends a b n Ha Hr) as [H0 Hn].
+  split; [exact H0|]. split; [exact Hn|]. apply log_interp_ratio.
+Qed.
+Print Assumptions C12_log_interpolates_constant_ratio.
 
 (* ---- IMP data cards: one importance per cell rank, the largest over the
    particle types; cards of different lengths are refused ---- *)
@@ -59,6 +72,27 @@ Theorem C12_importance_cards_uneven_refused :
     importance_cards Sc P cards = Err ECell.
 Proof. exact @importance_cards_uneven. Qed.
 Print Assumptions C12_importance_cards_uneven_refused.
+
+(* jumped entries (nJ): a single IMP card is taken as it is (None = jumped) ... *)
+Theorem C12_importance_cards_single :
+  forall (T : Type) (Sc : Scalar T) (P : prims T) (name : string) (toks : list string)
+         (es : list (entry (T:=T))) (vals : list (option T)),
+    reads P toks es -> meaning Sc (pw P) es None = Some vals ->
+    importance_cards Sc P [(name, toks)] = Ok vals.
+Proof. exact @importance_cards_single. Qed.
+Print Assumptions C12_importance_cards_single.
+
+(* ... with two or more cards a jumped entry anywhere stops the run
+   (max(None, x): TypeError) *)
+Theorem C12_importance_cards_jump_refused :
+  forall (T : Type) (Sc : Scalar T) (P : prims T) (cards : list (string * list string))
+         (first : list (option T)) (others : list (list (option T))),
+    NoDup (map fst cards) -> cards_read_o Sc P cards (first :: others) -> others <> [] ->
+    Forall (fun l => List.length l = List.length first) others ->
+    existsb has_none (first :: others) = true ->
+    importance_cards Sc P cards = Err EType.
+Proof. exact @importance_cards_jump_refused. Qed.
+Print Assumptions C12_importance_cards_jump_refused.
 
 (* ---- cell cards ---- *)
 
@@ -178,6 +212,25 @@ Theorem C12_data_card_max_zero :
 Proof. exact data_card_zero_iff. Qed.
 Print Assumptions C12_data_card_max_zero.
 
+(* a jumped entry of a single IMP card: the importance stays None, which is not
+   == 0; the cell at that rank is not skipped, and is converted when it is in no
+   universe and has no FILL (what the code does; the property text is silent
+   about jumps) *)
+Theorem C12_jumped_cell_kept :
+  forall (P : prims R) (name : string) (toks : list string) (es : list (entry (T:=R)))
+         (vals : list (option R)) (cards : list card) (lats : list (Z * list (Z * Z)))
+         (cells : list (Z * cell (T:=R))) (skipped : list Z) (r : nat) (key : Z)
+         (mat geom opts : string),
+    parse_cells RS P [(name, toks)] cards lats = Ok (cells, skipped) ->
+    reads P toks es -> meaning RS (pw P) es None = Some vals -> nth_error vals r = Some None ->
+    nth_error (dict_of Z.eqb cards) r = Some (key, (Explicit mat geom, opts)) ->
+    opt_imps RS P (option_tokens opts) [] ->
+    ~ In key skipped /\
+    exists c, In (key, c) cells /\ c_imp c = None /\
+              (c_u c = 0%Z -> c_fill c = FNone -> In key (conv_keys RS cells)).
+Proof. exact jumped_cell_kept. Qed.
+Print Assumptions C12_jumped_cell_kept.
+
 (* THE PROPERTY for importances on cell cards, any card - explicit, LIKE n BUT,
    chains of LIKE: with o the options the chain resolves to (base options first,
    BUT options appended) and es the IMP entries met in o, the cell is skipped
@@ -295,7 +348,7 @@ Example C12_example_card :
   let toks := ["1"; "2R"; "i"; "1"; "1m"; "J"] in
   let es := [EVal 1%R; ERep 2; EInt 1 1%R; EMul 1%R; EJump 1] in
   reads wP toks es /\
-  exists out, meaning RS es None = Some out /\ List.length out = 7%nat /\
+  exists out, meaning RS (pw wP) es None = Some out /\ List.length out = 7%nat /\
               expand RS wP toks None = Ok (out, 6%nat).
 Proof.
   cbv zeta.
@@ -405,4 +458,22 @@ Proof.
   split; [reflexivity|]. split.
   - repeat constructor.
   - repeat constructor.
+Qed.
+
+(* a card with logarithmic interpolation: the hypotheses of C12_expand_shorthand
+   for an nLOG entry are satisfiable *)
+Example C12_example_log :
+  let toks := ["1"; "1LOG"; "1"; "1ilog"; "1"] in
+  let es := [EVal 1%R; ELog 1 1%R; ELog 1 1%R] in
+  reads wP toks es /\ exists out, meaning RS (pw wP) es None = Some out /\ List.length out = 5%nat.
+Proof.
+  cbv zeta. split.
+  - apply reads_val; [reflexivity|exists "1"%char; repeat split; discriminate|].
+    apply (reads_log wP "1LOG" "1" 1 "1" 1%R); [reflexivity|discriminate|reflexivity|reflexivity|].
+    apply (reads_ilog wP "1ilog" "1" 1 "1" 1%R); [reflexivity|reflexivity|reflexivity|apply reads_nil].
+  - assert (log_ok RS 1%R 1%R 1 = true) as Hok.
+    { unfold log_ok. cbn [seqb sltb sdiv s0 RS]. rewrite Reqb_10.
+      replace (1 / 1)%R with 1%R by field. rewrite Rltb_10. reflexivity. }
+    eexists. cbn [meaning]. rewrite Hok. cbn [option_map].
+    split; reflexivity.
 Qed.
